@@ -633,15 +633,21 @@ fn packed_rewrite_program(rng: &mut StdRng) -> Vec<u8> {
         c.push(0x5f + bytes.len() as u8);
         c.extend(bytes);
     };
-    // a value with some evidence attached, left on the stack
-    let source = |c: &mut Vec<u8>, rng: &mut StdRng, arg: u8| {
+    // a raw argument, left on the stack
+    let source = |c: &mut Vec<u8>, _rng: &mut StdRng, arg: u8| {
         c.extend([0x60, 4 + 32 * arg, 0x35]);
+    };
+    // evidence about the (masked) field on top of the stack, which stays there: used as a divisor, an address, a
+    // condition, a signed number - or not at all
+    let mut sink = 20u8;
+    let mut usage = |c: &mut Vec<u8>, rng: &mut StdRng| {
+        sink += 1;
         match rng.gen_range(0..6) {
-            0 => c.extend([0x60, 0x01, 0x01]),             // + 1: a number
-            1 => c.extend([0x80, 0x31, 0x50]),             // balance(x): an address
-            2 => c.extend([0x15, 0x15]),                   // iszero(iszero(x)): a flag
-            3 => c.extend([0x60, 0x03, 0x05]),             // sdiv 3... signed
-            4 => c.extend([0x60, 0x00, 0x1a]),             // byte(0, x): a byte
+            0 => c.extend([0x80, 0x60, 0x03, 0x04, 0x60, sink, 0x55]), // 3 / x stored: unsigned
+            1 => c.extend([0x80, 0x31, 0x50]),                         // balance(x): an address
+            2 => c.extend([0x80, 0x15, 0x60, sink, 0x55]),             // iszero(x) stored
+            3 => c.extend([0x80, 0x60, 0x03, 0x05, 0x60, sink, 0x55]), // 3 sdiv x stored: signed
+            4 => c.extend([0x80, 0x60, 0x01, 0x01, 0x60, sink, 0x55]), // x + 1 stored: a number
             _ => {}
         }
     };
@@ -654,10 +660,15 @@ fn packed_rewrite_program(rng: &mut StdRng) -> Vec<u8> {
         let shared: Vec<bool> = split.iter().map(|_| rng.gen_bool(0.5)).collect();
         let nshared = shared.iter().filter(|b| **b).count();
         let mut k = 0u8;
-        for (i, (_, w)) in split.iter().enumerate() {
+        let inplace = rng.gen_bool(0.5);
+        for (i, (off, w)) in split.iter().enumerate() {
             if shared[i] {
                 source(&mut c, rng, k);
-                push(&mut c, &vec![0xff; w / 8]);
+                if inplace {
+                    push(&mut c, &[vec![0xff; w / 8], vec![0x00; off / 8]].concat());
+                } else {
+                    push(&mut c, &vec![0xff; w / 8]);
+                }
                 c.push(0x16);
                 k += 1;
             }
@@ -671,17 +682,31 @@ fn packed_rewrite_program(rng: &mut StdRng) -> Vec<u8> {
                     let extra = usize::from(!first);
                     c.push(0x80 + (nshared - 1 - seen_shared + extra) as u8);
                     seen_shared += 1;
+                    if *off > 0 && !inplace {
+                        let mut p2 = vec![0u8; off / 8 + 1];
+                        p2[0] = 1;
+                        push(&mut c, &p2);
+                        c.push(0x02);
+                    }
                 } else {
                     source(&mut c, rng, k);
                     k = (k + 1) % 6;
-                    push(&mut c, &vec![0xff; w / 8]);
-                    c.push(0x16);
-                }
-                if *off > 0 {
-                    let mut p2 = vec![0u8; off / 8 + 1];
-                    p2[0] = 1;
-                    push(&mut c, &p2);
-                    c.push(0x02);
+                    if inplace {
+                        // the field masked where it lies: x & (ones << off)
+                        push(&mut c, &[vec![0xff; w / 8], vec![0x00; off / 8]].concat());
+                        c.push(0x16);
+                        usage(&mut c, rng);
+                    } else {
+                        push(&mut c, &vec![0xff; w / 8]);
+                        c.push(0x16);
+                        usage(&mut c, rng);
+                        if *off > 0 {
+                            let mut p2 = vec![0u8; off / 8 + 1];
+                            p2[0] = 1;
+                            push(&mut c, &p2);
+                            c.push(0x02);
+                        }
+                    }
                 }
                 if !first {
                     c.push(0x17);
